@@ -464,6 +464,23 @@ func checkC19(rep *Report, rng *Rng, tier string) {
 		d := CfgDesc{Check: "C19", FileBacked: true, CmpCB: g.CmpMode == 1, Post: "lazyreads"}
 		return d.RunCfg(), out, d.String()
 	}, nil)
+	// concurrent key-only rounds (item-load races must not fetch values either)
+	rounds, concReads := 12, 0
+	if tier == "thorough" {
+		rounds = 150
+	}
+	for i := 0; i < rounds && len(rep.Violations) == 0; i++ {
+		seed := rng.U64()
+		msg, nr := concurrentKeyOnly(seed, 120)
+		concReads += nr
+		rep.Evaluations++
+		if msg != "" {
+			rep.Violation("", false, map[string]interface{}{"concurrent_key_only_round_seed": seed, "observed": msg,
+				"note": "schedule dependent; re-run ./check C19 to retry"})
+		}
+	}
+	rep.Extra["concurrent_key_only_rounds"] = rounds
+	rep.Extra["concurrent_key_only_reads_checked"] = concReads
 	rep.Extra["reopens_generated"] = opens
 	rep.Extra["read_lists_compared_with_model"] = lazyCompared
 	rep.Extra["open_read_lists_compared_with_model"] = lazyOpenCompared
